@@ -9,7 +9,7 @@ use pushr::push::item::Item;
 use pushr::push::stack::{PushPrint, PushStack};
 use std::collections::{HashMap, VecDeque};
 
-pub trait Elem: Clone + std::fmt::Display + PartialEq + PushPrint {
+pub trait Elem: Clone + std::fmt::Display + std::fmt::Debug + PartialEq + PushPrint {
     fn k(&self) -> String;
     /// what `last_eq` is documented to compare with
     fn last_eq_ref(a: &Self, b: &Self) -> bool;
@@ -330,8 +330,10 @@ fn bfs<T: Elem>(ctx: &mut Ctx, label: &str, vals: Vec<T>, max: usize) {
         for op in ops(state.len(), vals.len(), max) {
             let (id, rec) = ctx.take_exec();
             ctx.transitions += 1;
-            // real: rebuilt from the state by the documented constructor
-            let mut backing = state.clone();
+            // real: rebuilt from the state by the documented constructor; the backing vector is snug for the
+            // even states and keeps a large allocation for the odd ones (as a drained stack does)
+            let mut backing: Vec<T> = Vec::with_capacity(state.len() + if ctx.states % 2 == 0 { 0 } else { 600 });
+            backing.extend(state.iter().cloned());
             backing.reverse();
             let mut refv = state.clone();
             let rref = apply_ref(&mut refv, &op, &vals);
@@ -375,6 +377,90 @@ fn bfs<T: Elem>(ctx: &mut Ctx, label: &str, vals: Vec<T>, max: usize) {
     ctx.fixpoint = Some(true);
 }
 
+/// The same exploration on LIVE objects: a state is the real container itself (cloned for every successor,
+/// never rebuilt from its contents), identified by its derived Debug text -- every field, also one that is
+/// not part of the visible contents (a cached length, a cursor, a dirty flag). Whatever an operation leaves
+/// behind in such a field is still there when the next operation runs.
+fn bfs_live<T: Elem>(ctx: &mut Ctx, label: &str, vals: Vec<T>, max: usize, depth_max: usize, state_cap: usize) {
+    let mut seen: std::collections::HashSet<String> = std::collections::HashSet::new();
+    let mut queue: VecDeque<(PushStack<T>, Vec<T>, Vec<String>)> = VecDeque::new();
+    let init: PushStack<T> = PushStack::new();
+    seen.insert(format!("{:?}", init));
+    queue.push_back((init, vec![], vec![]));
+    let site = format!("PushStack<{}> (live)", label);
+    let mut capped = false;
+    while let Some((live, state, hist)) = queue.pop_front() {
+        ctx.states += 1;
+        ctx.max_depth = ctx.max_depth.max(hist.len() as u64);
+        if hist.len() >= depth_max {
+            continue;
+        }
+        for op in ops(state.len(), vals.len(), max) {
+            if matches!(op, Op::FromVec) {
+                continue; // rebuilding through the constructor is what this family avoids
+            }
+            let (id, rec) = ctx.take_exec();
+            ctx.transitions += 1;
+            let mut refv = state.clone();
+            let rref = apply_ref(&mut refv, &op, &vals);
+            let start = live.clone();
+            let (op2, vals2) = (op_clone(&op), vals_clone(&vals));
+            let got = guarded(move || {
+                let mut real = start;
+                let r = apply_real(&mut real, &op2, &vals2);
+                let c = contents(&real);
+                (r, c, real)
+            });
+            let descr = || format!("{} history=[{}] contents=[{}] (top first) op={:?}", site, hist.join(", "), ks(&state), op);
+            match got {
+                Err(p) => {
+                    let class = panic_class(&p);
+                    ctx.record_if(rec, id, &class, Verdict::fail(&site, &class, format!("expected return {} contents [{}]; {}", rref, ks(&refv), p)), descr);
+                }
+                Ok((rreal, creal, real)) => {
+                    let okey = format!("{:?} -> {} [{}]", op, rreal, ks(&creal));
+                    let v = if rreal != rref {
+                        Verdict::fail(&site, &format!("return:{}", opname(&op)), format!("returned {} but the plain sequence returns {}", rreal, rref))
+                    } else if ks(&creal) != ks(&refv) {
+                        Verdict::fail(&site, &format!("contents:{}", opname(&op)), format!("contents [{}] but the plain sequence holds [{}]", ks(&creal), ks(&refv)))
+                    } else {
+                        Verdict::Pass
+                    };
+                    let failed = !matches!(v, Verdict::Pass);
+                    ctx.nontrivial_mark(&okey);
+                    ctx.record_if(rec, id, &okey, v, descr);
+                    if failed || refv.len() > max {
+                        continue;
+                    }
+                    let k = format!("{:?}", real);
+                    if !seen.contains(&k) {
+                        if seen.len() >= state_cap {
+                            capped = true;
+                            continue;
+                        }
+                        seen.insert(k);
+                        let mut h = hist.clone();
+                        h.push(format!("{:?}", op));
+                        queue.push_back((real, refv, h));
+                    }
+                }
+            }
+        }
+    }
+    if capped {
+        ctx.caps.push(format!("{}: state cap {} reached", site, state_cap));
+    }
+    ctx.caps.push(format!("{}: depth bound {}", site, depth_max));
+    ctx.fixpoint = Some(false);
+}
+
+fn op_clone(op: &Op) -> Op {
+    op.clone()
+}
+fn vals_clone<T: Clone>(v: &[T]) -> Vec<T> {
+    v.to_vec()
+}
+
 fn opname(op: &Op) -> &'static str {
     match op {
         Op::Push(_) => "push",
@@ -407,6 +493,11 @@ pub fn run(ctx: &mut Ctx) {
         "int" => {
             let (vals, max) = if ctx.tier_thorough { (vec![1, 2], 13) } else { (vec![1, 2], 10) };
             bfs::<i32>(ctx, "i32", vals, max);
+        }
+        "live" => {
+            let (max, depth) = if ctx.tier_thorough { (5, 9) } else { (4, 7) };
+            bfs_live::<i32>(ctx, "i32", vec![1, 2], max, depth, 2_000_000);
+            bfs_live::<Item>(ctx, "Item", vec![item_of(&Tree::I(1)), item_of(&Tree::L(vec![Tree::I(1)]))], 3, if ctx.tier_thorough { 7 } else { 5 }, 2_000_000);
         }
         "float" => {
             // values that print alike to one decimal / differ by one ulp; NaN (never equal to itself by ==, equal by text)
